@@ -262,6 +262,22 @@ def gen_queries(ctx, maxclauses, nested):
     return cases
 
 
+def gen_msm_family(ctx):
+    r = vlib.run_tlc("Gen_QuerySemMsm", "Gen_QuerySemMsm.cfg", workers=4, timeout=300)
+    ctx.add_tlc("Gen_QuerySemMsm", r, kind="generator")
+    if r.violated:
+        out = ctx.path("Gen_QuerySemMsm.tlc.out")
+        open(out, "w").write(r.out)
+        ctx.violation("model checking QuerySem (msm family): " + ", ".join(r.violated) + " violated", [out], r.out[-3000:])
+    elif r.tool_error:
+        log(r.out[-3000:])
+        raise vlib.ToolError("Gen_QuerySemMsm failed")
+    cases = [json.loads(m.group(1).encode().decode("unicode_escape")) for m in re.finditer(r'<<"CASE", "(.*)">>', r.out)]
+    if not cases:
+        raise vlib.ToolError("Gen_QuerySemMsm printed no query")
+    return cases
+
+
 def replay_generated(ctx):
     cases = gen_queries(ctx, 2, True)
     seen = {json.dumps(c, sort_keys=True) for c in cases}
@@ -270,7 +286,11 @@ def replay_generated(ctx):
         if k not in seen:
             seen.add(k)
             cases.append(c)
-    ctx.cov["boolean_queries_enumerated_by_tlc"] = len(cases)
+    # the family "msm below the number of Should clauses next to a Must / MustNot clause" (Disjunction scorer inside an
+    # intersection / under an exclusion): enumerated by Gen_QuerySemMsm, run in full on every stripe plan
+    family = gen_msm_family(ctx)
+    ctx.cov["boolean_queries_enumerated_by_tlc"] = len(cases) + len(family)
+    ctx.cov["msm_family_queries"] = len(family)
     # (r, segments, deletes, merge, share of the cases)
     if ctx.quick:
         plans = [(1, 1, 0, False, 1.0), (1, 3, 2, False, 0.3), (129, 2, 9, False, 0.35), (129, 3, 9, True, 0.15), (4097, 2, 20, False, 0.04)]
@@ -281,7 +301,7 @@ def replay_generated(ctx):
     def one(ip):
         i, (r, segs, dels, merge, share) = ip
         step = max(1, round(1 / share))
-        sub = cases[i % step::step]
+        sub = cases[i % step::step] + family
         cp = ctx.path(f"gen_cases_{i}.ndjson")
         vlib.write_ndjson(cp, sub)
         tp = ctx.path(f"gen_trace_{i}.ndjson")
